@@ -1,6 +1,13 @@
 """C12 — log rotation: Lean model `Rot` (Model/Rotation.lean: New/options, Write as a step function with the retry
-loop, rotate as the literal rename chain, Close, re-open), theorems Props/C12.lean, stateful correspondence with
-`rotation.Rotator` on scratch directories, plus an implementation-side concurrent-writer oracle."""
+loop, rotate as the literal rename chain, Close, re-open; Model/RotationErr.lean: the same on a file system whose calls
+fail — what the driver runs), theorems Props/C12.lean, stateful correspondence with `rotation.Rotator` on scratch
+directories (areas rot, rotdef; rotf under real faults: immutable slot, directory replaced by a file, RLIMIT_FSIZE; rotfd
+with the descriptor closed behind the rotator's back), call-inventory tie Props/C12Calls.lean, lock tie Props/C12Lock.lean,
+plus implementation-side oracles for resource failures and concurrent writers."""
+
+
+# white-box accessor for the descriptor held by the rotator (area rotfd); found by type, so field renames do not matter
+OVERLAY = {"log/rotation/verif_fd.go": "c12_fd.go"}
 
 
 def _tag(line, out):
@@ -24,7 +31,107 @@ def run(ctx):
     try:
         _run(ctx, {"C12_TMP": scratch})
     finally:
+        # a killed harness of area rotf may leave a file with the immutable / append-only inode flag behind
+        import subprocess
+        if os.listdir(scratch) and shutil.which("chattr"):
+            subprocess.run(["chattr", "-R", "-f", "-i", "-a", scratch], stdout=subprocess.DEVNULL,
+                           stderr=subprocess.DEVNULL, check=False)
         shutil.rmtree(scratch, ignore_errors=True)
+
+
+def _tagf(line, out):
+    """area rotf: what kind of failure did the operation meet"""
+    op = line.split(" ", 1)[0]
+    if op not in ("w", "wlim"):
+        return None
+    head = out.split(" | ", 1)[0]
+    if head == "hang":
+        return "fault:hang"
+    if "err=error" in head:
+        return "fault:%s:%s" % (op, "refused(n=0)" if head.startswith("n=0 ") else "short(n>0)")
+    return "fault:%s:ok" % op
+
+
+CALLS_MODULE = "Props.C12Calls"
+
+
+def _lean_phase(ctx):
+    """The Lean phase.  Call-inventory tie: go/cmd/c12facts reads from the Go source of the working tree which functions
+    of package os and which methods of *os.File package rotation calls, and the flag constants of its os.OpenFile, and
+    writes them to lean/Generated/RotationCalls.lean (deleted and regenerated on every run); Props/C12Calls.lean decides in
+    the kernel that they are exactly the calls the failing-file-system model (Rot.Sys) quantifies over.  Built and audited
+    together with Props/C12.lean; when the joint build fails the main module is built and audited again on its own, so
+    that a tie that no longer checks cannot hide the audit of Props/C12.lean.  After a run against another tree the
+    reference table (of /repo) is restored."""
+    import fcntl
+    import json
+    import os
+    from vlib import core
+    gen = os.path.join(core.LEAN, "Generated", "RotationCalls.lean")
+    tool = os.path.join(ctx.work, "c12facts")
+    names = core.theorem_names(os.path.join(core.LEAN, CALLS_MODULE.replace(".", "/") + ".lean"))
+
+    def fail_all():
+        for q in names:
+            ctx.theorems.append({"name": q, "axioms": None, "ok": False})
+
+    def generate(repo):
+        if os.path.exists(gen):
+            os.remove(gen)
+        rc, out = core.sh([tool, repo, gen], cwd=core.GO, env=core.env_go(), timeout=300)
+        if rc != 0 or not os.path.exists(gen):
+            return None, out
+        try:
+            return json.loads(out.strip().splitlines()[-1]), out
+        except Exception:
+            return None, out
+
+    def main_only(why):
+        ctx.lean_problems.append(why)
+        fail_all()
+        ctx.lean(props=["Props.C12"], drivers=["drv_c12"])
+
+    ctx.checker_cmds.append("cd go && go run ./cmd/c12facts <repo> ../lean/Generated/RotationCalls.lean   (regenerate the "
+                            "table of file-system calls from the Go source)")
+    rc, out = core.sh(["go", "build", "-modfile=" + ctx._gomod(), "-o", tool, "./cmd/c12facts"], cwd=core.GO,
+                      env=core.env_go(), timeout=600)
+    if rc != 0:
+        main_only("c12facts does not build: " + out[-300:])
+        return
+    os.makedirs(os.path.join(core.VERIF, ".work"), exist_ok=True)
+    with open(os.path.join(core.VERIF, ".work", "c12facts.lock"), "w") as lk:
+        fcntl.flock(lk, fcntl.LOCK_EX)
+        try:
+            info, out = generate(ctx.repo)
+            if info is None:
+                main_only("c12facts could not analyse package log/rotation of the working tree: " + out[-400:])
+                return
+            ctx.extra["call_tie_os_calls"] = info.get("osCalls")
+            ctx.extra["call_tie_file_calls"] = info.get("fileCalls")
+            ctx.extra["call_tie_open_flags"] = info.get("openFlags")
+            ctx.rules.append("call-inventory tie: the %d functions of package os, the %d methods of *os.File and the flags of "
+                             "os.OpenFile that package rotation uses, read from the syntax of the working tree; %s decides "
+                             "that they are the calls of the model Rot.Sys" % (
+                                 len(info.get("osCalls") or []), len(info.get("fileCalls") or []), CALLS_MODULE))
+            nt, npb, ncmd = len(ctx.theorems), len(ctx.lean_problems), len(ctx.checker_cmds)
+            ctx.lean(props=["Props.C12", CALLS_MODULE], drivers=["drv_c12"])
+            if not any(p.startswith("lake build failed") for p in ctx.lean_problems[npb:]):
+                return
+            # the joint build failed: audit the main module on its own; the tie theorems count as not discharged
+            del ctx.theorems[nt:]
+            del ctx.lean_problems[npb:]
+            del ctx.checker_cmds[ncmd:]
+            ctx.lean(props=["Props.C12"], drivers=["drv_c12"])
+            if not any(p.startswith("lake build failed") for p in ctx.lean_problems[npb:]):
+                ctx.lean_problems.append(
+                    "call-inventory tie lost: %s does not check against the calls read from the working tree "
+                    "(os: %s; *os.File: %s; OpenFile flags: %s) — the model Rot.Sys quantifies over MkdirAll, Stat, OpenFile, "
+                    "Remove, Rename, and Close/Sync/Write (Stat) on the descriptor, opened O_APPEND|O_CREATE without O_TRUNC"
+                    % (CALLS_MODULE, info.get("osCalls"), info.get("fileCalls"), info.get("openFlags")))
+            fail_all()
+        finally:
+            if ctx.repo != "/repo" and os.path.isdir("/repo/log/rotation"):
+                generate("/repo")
 
 
 def _run(ctx, env):
@@ -32,9 +139,11 @@ def _run(ctx, env):
     t0 = time.time()
     marks = {}
     ctx.modelled += [
-        "the directory of the log file is a partial map index -> bytes (0 = path, i = path-i); os.Rename/Remove/"
-        "Stat/OpenFile(O_APPEND|O_CREATE)/MkdirAll succeed (only `not exist` errors occur, and are ignored as in the "
-        "code); Write returns (len(b), nil)",
+        "the directory of the log file is a partial map index -> bytes (0 = path, i = path-i); every system call of "
+        "rotator.go (MkdirAll, Stat, OpenFile(O_APPEND|O_CREATE), Remove, each Rename of the chain, and Close/Sync/Write "
+        "on the descriptor) asks an environment whether it fails (Model/RotationErr.lean, what drv_c12 runs); a failing "
+        "call has no effect on the directory, a missing file is `not exist` (ignored as in the code), the descriptor "
+        "write may be short; areas rot/rotdef run the calm environment, rotf/rotfd the environments of the real faults",
         "WithMask is an option without effect on the directory model (file modes are not in the property text and are not "
         "compared); without a Path option the rotator is only constructed (PathToLog() = DefaultPath()), never written",
         "records written by the harness are position-dependent (byte j of write k = (53k+1+j) mod 251) and files are "
@@ -59,24 +168,57 @@ def _run(ctx, env):
         "order, all records while the oldest slot is unused, directory = sequential rotation rule applied to the "
         "records in the order read back) — run plain and under the race detector. The clause `concurrent writers "
         "never interleave bytes` is therefore: proved for the bracketed model, observed (not proved) for the code",
-        "no other process modifies the log directory between operations; file system calls do not fail (disk full, "
-        "permissions) in the model — error paths of Write/rotate are exercised by the `errs` implementation oracle only",
+        "no other process modifies the log directory between operations; the failing-file-system theorems (C12.faulty_*) "
+        "hold for every environment of the model; the code is compared with that model only under the faults the harness "
+        "can provoke for real: an immutable slot (EPERM on Remove/Rename), the directory replaced by a regular file "
+        "(ENOTDIR), RLIMIT_FSIZE (partial write, then EFBIG), the descriptor closed behind the rotator's back; a Stat "
+        "that fails while OpenFile succeeds, and a failing MkdirAll/OpenFile in isolation, are in the model and in no "
+        "differential run (the `errs` oracle covers parentfile/pathisdir/oldestdir on the implementation side)",
         "the cost of one rotation is linear in MaxBackups (one rename attempt per slot): MaxBackups is exercised up to "
         "100; astronomically large values (math.MaxInt) make a rotating Write run for that many iterations",
     ]
-    ctx.lean(props=["Props.C12"], drivers=["drv_c12"])
+    _lean_phase(ctx)
     from vlib import lockfacts
     lockfacts.run(ctx, "rotation", "Props.C12Lock", "C12Lock")   # lock discipline decided about tables regenerated from the Go source
     marks["lean_s"] = round(time.time() - t0, 1)
-    ctx.harness("./cmd/c12")
+    ctx.harness("./cmd/c12", overlay=OVERLAY)
     marks["harness_s"] = round(time.time() - t0, 1)
     ctx.extra["phase_times"] = marks
-    ctx.diff(area="rot", driver="drv_c12", n={"quick": 90000, "thorough": 6000000}, stateful=True,
+    ctx.diff(area="rot", driver="drv_c12", n={"quick": 70000, "thorough": 5000000}, stateful=True,
              trivial=lambda l, o: o in ("norot", "sync=nil", "nopath", "new=err"),
              tagger=_tag, extra_env=env,
              theorem="C12.write_terminates / write_whole / retained_is_suffix / size_bound / backup_count / "
                      "preexisting_appended / close_then_write (model = spec); impl != model on this input "
                      "(`hang` = the Write did not return within the deadline)")
+    import os
+    import subprocess
+    probe = subprocess.run([ctx.harness_bin["harness"], "probe-faults"], env=dict(os.environ, **env),
+                           stdout=subprocess.PIPE, stderr=subprocess.DEVNULL, text=True, check=False)
+    if probe.stdout.strip() == "true":
+        ctx.diff(area="rotf", driver="drv_c12", n={"quick": 20000, "thorough": 1500000}, stateful=True,
+                 trivial=lambda l, o: o in ("norot", "sync=nil", "block=ok", "unblock=ok", "unjam=ok"),
+                 tagger=_tagf, extra_env=env,
+                 theorem="C12.faulty_write_terminates / faulty_retained_is_suffix / failed_write_adds_nothing / "
+                         "short_write_places_prefix / faulty_backup_frame / recovery_after_faults (model with a failing "
+                         "file system, Model/RotationErr.lean = spec); impl != model on this input under REAL faults "
+                         "(immutable slot, directory replaced by a file, RLIMIT_FSIZE)")
+        ctx.extra["fault_area"] = "run (inode flags and RLIMIT_FSIZE available in the scratch area)"
+    else:
+        ctx.extra["fault_area"] = "SKIPPED: the scratch file system refuses inode flags or RLIMIT_FSIZE"
+        ctx.assumptions.append("area rotf (real file system faults against Model/RotationErr.lean) could not run here: "
+                               "the scratch file system refuses the immutable flag or RLIMIT_FSIZE")
+    pfd = subprocess.run([ctx.harness_bin["harness"], "probe-fd"], env=dict(os.environ, **env),
+                         stdout=subprocess.PIPE, stderr=subprocess.DEVNULL, text=True, check=False)
+    if "overlay_fallback" not in ctx.extra and pfd.stdout.strip() == "true":
+        ctx.diff(area="rotfd", driver="drv_c12", n={"quick": 8000, "thorough": 600000}, stateful=True, shards=2,
+                 trivial=lambda l, o: o in ("norot", "sync=nil", "breakfd=none"),
+                 tagger=_tagf, extra_env=env,
+                 theorem="C12.faulty_write_returns / failed_write_adds_nothing / faulty_retained_is_suffix (failing Close "
+                         "inside rotate and in Close(), failing Sync, a descriptor write that takes nothing); impl != model "
+                         "after the harness closed the rotator's descriptor behind its back (white-box accessor)")
+        ctx.extra["fd_area"] = "run (descriptor reached through the injected accessor)"
+    else:
+        ctx.extra["fd_area"] = "SKIPPED: the white-box accessor does not reach the descriptor in this working tree"
     ctx.diff(area="rotdef", driver="drv_c12", n=1, shards=1, stateful=True, extra_env=env,
              theorem="C12.new_defaults (limits of a rotator built without MaxSize/MaxBackups options) + the theorems "
                      "above; impl != model on this input")
@@ -93,7 +235,7 @@ def _run(ctx, env):
                           "C12.concurrent_writes_never_interleave: whole records, per-goroutine order, nothing lost "
                           "while the oldest slot is unused, directory = sequential rotation rule on the order read back")
     marks["stress_s"] = round(time.time() - t0, 1)
-    if ctx.harness("./cmd/c12", name="race", race=True):
+    if ctx.harness("./cmd/c12", name="race", race=True, overlay=OVERLAY):
         marks["racebuild_s"] = round(time.time() - t0, 1)
         ctx.impl_oracle("stress", {"quick": 12, "thorough": 120}, name="race",
                         extra_env=dict(env, GORACE="halt_on_error=1 exitcode=66"),
